@@ -245,7 +245,7 @@ def finish(ctx, level="model_checking", rule="", extra=None):
         else:
             new.append(v)
     shown = 0
-    for v in new:
+    for v in new[:200]:
         os.makedirs(rep_dir, exist_ok=True)
         path = os.path.join(rep_dir, "%s.json" % re.sub(r"[^A-Za-z0-9_.-]", "_", str(v["key"]))[:80])
         json.dump(dict(property=ctx.pid, key=v["key"], what=v["what"], case=v["case"]), open(path, "w"), indent=1)
